@@ -25,7 +25,8 @@ RULE = ('quick/thorough: exhaustive enumeration of all multisets of <=3 ranges (
         'per-bank default limits; shatter over every (address,count<=N,limit) of a small domain.  A case is '
         'distinct by its (ranges, reach, limit) tuple; non-trivial = at least two ranges or a range longer than the limit.')
 ASSUMPTIONS = ['register bank = address // 10000, as remote/plc_modbus.merge defines it',
-               'the empty range set is not judged (merge([]) raises StopIteration->RuntimeError; the poller never passes it)']
+               'the empty range set is not judged (merge([]) raises StopIteration->RuntimeError; the poller never passes it)',
+               'ranges have count >= 1: a zero-count "range" requests no register and is not a range of the property\'s domain (the unchanged merge lets such entries extend a run, e.g. merge([(1,2),(5,0),(7,0)], reach=3) polls register 6; harmless, and no caller passes them)']
 REQUIRED = ['merge:nested', 'merge:overlap', 'merge:adjacent', 'merge:disjoint', 'merge:duplicate',
             'merge:within-reach-gap', 'merge:limit-split', 'shatter:calls', 'poller:configs']
 TIMEOUT = {'quick': 300, 'thorough': 1800}
